@@ -443,6 +443,9 @@ M('C03', 'ag-symenc-helper-default-cfb8', SE, 'def _encrypt(pt, key, alg, iv=Non
 M('C03', 'ag-select-helper-or', PGP, '        pkesk = next(pk for pk in message._sessionkeys if isinstance(pk, PKESessionKey)\n                     and pk.pkalg == self.key_algorithm and pk.encrypter == self.fingerprint.keyid)',
   '        def _candidates():\n            for pk in message._sessionkeys:\n                if not isinstance(pk, PKESessionKey):\n                    continue\n                if pk.encrypter == self.fingerprint.keyid or pk.pkalg == self.key_algorithm:\n                    yield pk\n        pkesk = next(_candidates())', 'C03.8')
 
+T('C03', 'twin-decrypt-wiring-keywords', PGP, "        decmsg.parse(message.message.decrypt(key, alg))\n\n        return decmsg\n\n    def parse(self, data):", "        recovered = (alg, key)\n        decmsg.parse(message.message.decrypt(alg=recovered[0], key=recovered[1]))\n\n        return decmsg\n\n    def parse(self, data):")
+M('C03', 'decrypt-wiring-cipher-from-own-prefs', PGP, "        decmsg.parse(message.message.decrypt(key, alg))\n\n        return decmsg\n\n    def parse(self, data):", "        decmsg.parse(message.message.decrypt(key, SymmetricKeyAlgorithm.AES256))\n\n        return decmsg\n\n    def parse(self, data):", 'C03.7')
+
 # =============================================================================================== C02
 M('C02', 'hash2-last-two', PGP, "        sig._signature.hash2 = bytearray(h2.digest()[:2])", "        sig._signature.hash2 = bytearray(h2.digest()[-2:])", 'C02.2')
 M('C02', 'signer-hashdata-none', PGP, "        _sig = self._key.sign(sigdata, getattr(hashes, sig.hash_algorithm.name)())", "        _sig = self._key.sign(sig.hashdata(None), getattr(hashes, sig.hash_algorithm.name)())", 'C02.2')
